@@ -88,6 +88,11 @@ def run_history(case):
                 pass
             eq_after = bool(m == probe) and bool(probe == m)
             originals.append((old, O.snapshot(old), O.ids_of(old), eq_now, eq_after))
+        elif op[0] == "call":
+            try:
+                O.apply_call(m, op)
+            except Exception as e:  # noqa: BLE001
+                out = type(e).__name__
         else:
             try:
                 O.apply_mut(m, op)
@@ -97,16 +102,22 @@ def run_history(case):
              "effect": "as documented"}
         s = None
         if check:
-            after = O.snapshot(m)
+            try:
+                after = O.snapshot(m)
+            except Exception:  # noqa: BLE001
+                if any(o[0] == "call" for o in ops):
+                    break  # a probe call stored something that is not a model component: the history ends here
+                raise
             carried = (m, after, r["ids"])
             if out != "ok":
                 r["changed"] = after != before or r["ids"] != ids_before
             s = {"keys": r["keys"], "changed": False, "ans": None, "effect": "as documented"}
-            if out == "ok" and op[0] not in ("q", "fork"):
+            if out == "ok" and op[0] not in ("q", "fork", "call"):
                 exp = c03spec.expected_content(before, op)
                 if exp is not None and exp != after:
                     r["effect"] = {"content differs in": [k for k in O.KEYS if exp[k] != after[k]]}
-            exp = c03spec.expected_outcome(before, op) if op[0] not in ("q", "fork") else "ok"
+            exp = (c03spec.expected_outcome(before, op) if op[0] not in ("q", "fork", "call")
+                   else None if op[0] == "call" else "ok")
             s["out"] = r["out"] if exp is None else exp
             fresh = None
             try:
@@ -321,6 +332,10 @@ def signature(case, i, kind):
     if op[0] == "q" and op[1] not in ("init", "pvals", "classes", "args", "argsro", "rhs", "fluxes", "call", "stoich",
                                       "stoichvar"):
         return f"{kind}@{op[1]}-after-{prev}"
+    if op[0] == "call":
+        return f"{kind}@call:{op[1]}"
+    if prev == "call":
+        prev = next("call:" + o[1] for o in reversed(case["ops"][:i]) if o[0] == "call")
     return f"{kind}@{op[0] if op[0] != 'q' else 'query-after-' + prev}"
 
 
@@ -420,9 +435,9 @@ class Judge:
         ctx.judge(sub, r, s, m, what=f"{sig}: real model vs freshly built model with the same content / name-space rules")
 
 
-def evaluate(ctx, cases, judge):
+def evaluate(ctx, cases, judge, use_model=True):
     Ms = [None] * len(cases)
-    if ctx.driver_ok:
+    if ctx.driver_ok and use_model:
         Ms = model_histories(cases)
     reps = pool().map(check_history, list(zip(cases, Ms)), chunksize=4)
     for c, rep in zip(cases, reps):
@@ -479,6 +494,15 @@ def run(ctx):
     p2 = list(G.pairs2())
     for i in range(0, len(p2), 400):
         evaluate(ctx, p2[i:i + 400], judge)
+    # public methods nobody has described (a NEW method in the source: C03_table_surface / the translator have already
+    # broken the proof side): look for a failing input by calling them inside histories — the fresh-rebuild oracle
+    # needs no model of the method (edits without invalidation, ids out of step, half-applied rejections show)
+    unknown = O.unknown_public()
+    if unknown:
+        ctx.notes.append(f"public methods of Model unknown to the check: {unknown}; probed with {len(O.PROBE_ARGS)} "
+                         "argument lists each (real code vs freshly built model, no Lean model)")
+        ctx.extra_cov["unknown_public_methods"] = unknown
+        evaluate(ctx, list(G.probe_histories(unknown, O.PROBE_ARGS)), judge, use_model=False)
     # a broken proof / drifting model without a failing input so far: widen the search (thorough generator)
     widen = thorough or ((not ctx.proof_ok or bool(ctx.drift)) and not ctx.violations)
     if widen and not thorough:
